@@ -5,3 +5,4 @@ id=$1; patch=$2; budget=${3:-20}
 trap 'git -C /repo checkout -- . >/dev/null 2>&1' EXIT INT TERM
 git -C /repo apply "$patch" || { echo "PATCH DOES NOT APPLY"; exit 3; }
 cd /verif && ./check "$id" --budget-s "$budget" ${WORKERS:+--workers $WORKERS} ${TIER:+--tier $TIER} | grep '^violation class=\|^VIOLATION\|^summary\|^KNOWN\|^INCONCLUSIVE' | cut -c1-300 | sed 's/replay=.*//' | sort | uniq -c | sort -rn | head -8
+git -C /verif checkout -- evidence/ 2>/dev/null
